@@ -160,7 +160,7 @@ theorem charrefFinish_nonempty (n : Nat) (d : Option PStr) : ∃ c cs, charrefFi
     | none, h => simp [truthy] at h
     | some [], h => simp [truthy] at h
   | false =>
-    by_cases hn : n ≤ Gen.maxUnicode
+    by_cases hn : n ≤ Gen.C06.maxUnicode
     · exact ⟨n, [], by simp [hn, truthy]⟩
     · exact ⟨0xFFFD, [], by simp [hn, hd]⟩
 
